@@ -204,12 +204,17 @@ class Cutter(ast.NodeTransformer):
             return n
         if n.orelse:
             raise Unsupported("for-else in a cut loop")
-        if not (isinstance(n.iter, ast.Call) and isinstance(n.iter.func, ast.Name) and n.iter.func.id == "range"
-                and isinstance(n.target, ast.Name)):
-            raise Unsupported("cut for-loop must be `for NAME in range(...)`: " + ast.unparse(n.iter))
+        seq_loop = not (isinstance(n.iter, ast.Call) and isinstance(n.iter.func, ast.Name) and n.iter.func.id == "range")
+        if not isinstance(n.target, ast.Name):
+            raise Unsupported("cut for-loop must bind a single NAME: " + ast.unparse(n.target))
+        if seq_loop:
+            return self._cut_seq_loop(n, k)
         T = n.target.id
         names, inplace = assigned_names(n.body)
         names = [x for x in names if x != T]
+        return self._emit_for(n, k, T, names, inplace)
+
+    def _emit_for(self, n, k, T, names, inplace):
         self.info[k] = dict(kind="for", var=T, names=names, inplace=[ast.unparse(e) for e in inplace],
                             header=ast.unparse(n.iter), lineno=n.lineno)
         K = ast.Constant(k)
@@ -251,6 +256,31 @@ class Cutter(ast.NodeTransformer):
 
     def _undef_guard(self, stmts, names, k):
         return stmts
+
+    def _cut_seq_loop(self, n, k):
+        """`for T in SEQ: body`  ==>  `__seqK = SEQ; for __ixK in range(len(__seqK)): T = __seqK[__ixK]; body`
+        (the index __ixK is visible to invariants as v.__dict__['__ix%d' % K], alias v.idx via loop spec 'index_name')"""
+        seq, ix = "__seq%d" % k, "__ix%d" % k
+        T = n.target.id
+        pre = ast.Assign(targets=[_name(seq, ast.Store())], value=n.iter)
+        bind = ast.Assign(targets=[_name(T, ast.Store())],
+                          value=ast.Subscript(value=_name(seq), slice=_name(ix), ctx=ast.Load()))
+        loop = ast.For(target=_name(ix, ast.Store()),
+                       iter=_call(_name("range"), _call(_name("len"), _name(seq))),
+                       body=[bind] + n.body, orelse=[])
+        ast.copy_location(loop, n)
+        ast.copy_location(pre, n)
+        ast.fix_missing_locations(loop)
+        self.order[id(loop)] = k
+        out = self.visit_For_index(loop, k)
+        return [pre] + out
+
+    def visit_For_index(self, n, k):
+        # same as the range branch of visit_For, without re-visiting the body
+        T = n.target.id
+        names, inplace = assigned_names(n.body)
+        names = [x for x in names if x != T]
+        return self._emit_for(n, k, T, names, inplace)
 
     def visit_While(self, n):
         k = self.order.get(id(n))
